@@ -118,3 +118,29 @@ CHECKS["C20"] = dict(
           "shapes whose space is not exhausted are reported as inconclusive counts, never as passed-exhaustively. Calls that fail in the warm-up are "
           "outside the statement."),
 )
+
+CHECKS["C01"] = dict(
+    engine="symx", category="model_checking", design_ref="DESIGN.md §6 C01",
+    technique="symbolic execution of the real dispatch (direct, recurse, call_next) over a symbolic class hierarchy, has-method facts and priorities (z3); closed-form membership asserted on every logged method entry",
+    text=("Sampled method sets (1-2 positionals with an optional one, keyword-only parameter, annotations from classes, object, Union, Intersection, "
+          "Exactly, StrictSubclass, HasMethod nested to depth 2; bodies delegating through call_next / recurse with the same or differently typed "
+          "arguments) are called with several call shapes. Every method body logs the objects it receives; per class of (hierarchy, has-method, "
+          "priorities) an UNSAT query shows that every supplied argument of every entered method is a member of the declared annotation by its "
+          "documented meaning; a handler invoked with a positional count or keyword set it does not accept surfaces as Python's own binding error "
+          "and is a violation. Value-dependent annotations are decided by the CrossHair harnesses of C10/C11 (method bodies assert their condition)."),
+    note=("Bounds: 3 classes, 2-3 methods, 4 calls per set, 700 sampled sets quick / 9000 thorough, 10 s / 60 s exploration budget per set. Pure safety: "
+          "which method or error is C02's subject. Native validation compares verdicts, not observations, because the sets include types with the "
+          "recorded order-dependence (C06)."),
+)
+CHECKS["C03"] = dict(
+    engine="symx", category="model_checking", design_ref="DESIGN.md §6 C03",
+    technique="symbolic execution of the real generated entry point and dispatch over a symbolic hierarchy and priorities (z3) for enumerated signature sets and call shapes; oracle inspect.signature(original).bind + identity of sentinels",
+    text=("Sampled signature sets (required / optional / positional-only positionals, required / optional keyword-only parameters, functions and methods "
+          "with self, uniform or differing names, distinct sentinel defaults) are called with up to 10 call shapes each. For the method that ran, the "
+          "objects bound to every parameter must be identical to what inspect.signature(original).bind(...).apply_defaults() gives, the caller must "
+          "receive the very sentinel returned or the very exception raised, self must be the instance; a dispatcher-side rejection is accepted only if "
+          "the closed-form rule finds no applicable method for that call shape (UNSAT query per path class). The hierarchy and priorities are symbolic "
+          "so that every selectable method is exercised."),
+    note=("Bounds: 3 classes, 1-3 methods, 0-2 positionals (3 thorough), keywords {k, j}; 1500 sampled sets quick / 12000 thorough. The signature-set and "
+          "call-shape quantifiers are enumerated, not symbolic. Defect fixed: 2885376 (keywords dropped). Recorded finding: C03-empty-call."),
+)
